@@ -15,11 +15,12 @@ import (
 	metav1 "k8s.io/apimachinery/pkg/apis/meta/v1"
 	"k8s.io/apimachinery/pkg/types"
 	"k8s.io/client-go/tools/cache"
+	"k8s.io/client-go/util/workqueue"
 
 	apps "github.com/pingcap/advanced-statefulset/client/apis/apps/v1"
 )
 
-var hOwners = []string{"none", "S1", "S1stale", "S2", "otherKind", "gone"}
+var hOwners = []string{"none", "S1", "S1alpha", "S1stale", "S2", "otherKind", "gone"}
 var hLabels = []string{"L0", "L1", "L1b", "L2"}
 
 type podShape struct {
@@ -53,6 +54,9 @@ func hPod(sh podShape, rv string) *v1.Pod {
 	switch sh.Owner {
 	case "S1":
 		p.OwnerReferences = ref("StatefulSet", "s1", "uid-s1")
+	case "S1alpha": // the same set, referenced through the other API version the CRD serves
+		p.OwnerReferences = ref("StatefulSet", "s1", "uid-s1")
+		p.OwnerReferences[0].APIVersion = "apps.pingcap.com/v1alpha1"
 	case "S1stale":
 		p.OwnerReferences = ref("StatefulSet", "s1", "uid-of-an-earlier-s1")
 	case "S2":
@@ -160,13 +164,27 @@ func (e *Env) hTable(sh *shardWriter) int {
 				h.OnAdd(s, false)
 			}
 		})
-		emit(map[string]interface{}{"kind": "setUpdate", "set": nm}, func() {
-			o := s.DeepCopy()
-			o.Status.Replicas = 5
-			for _, h := range e.setInf.handlers {
-				h.OnUpdate(o, s)
-			}
-		})
+		// "any change to a set enqueues it": the status, only an annotation (slots, the pause flag lifted), only a label
+		for _, what := range []string{"status", "slots", "unpause", "label"} {
+			what := what
+			emit(map[string]interface{}{"kind": "setUpdate", "set": nm, "what": what}, func() {
+				o := s.DeepCopy()
+				o.ResourceVersion = "1"
+				switch what {
+				case "status":
+					o.Status.Replicas = 5
+				case "slots":
+					o.Annotations = map[string]string{"delete-slots": "[1]"}
+				case "unpause":
+					o.Annotations = map[string]string{"paused-reconcile": "true"}
+				case "label":
+					o.Labels = map[string]string{"team": "x"}
+				}
+				for _, h := range e.setInf.handlers {
+					h.OnUpdate(o, s)
+				}
+			})
+		}
 		emit(map[string]interface{}{"kind": "setDelete", "set": nm}, func() {
 			for _, h := range e.setInf.handlers {
 				h.OnDelete(s)
@@ -277,6 +295,10 @@ func (e *Env) hSequence(ops []string) map[string]interface{} {
 		"finalQueued": q.Len() > 0, "finalRequeues": q.NumRequeues(key)}
 }
 
+func fastQueue() workqueue.RateLimitingInterface {
+	return workqueue.NewNamedRateLimitingQueue(workqueue.NewItemExponentialFailureRateLimiter(time.Microsecond, 200*time.Microsecond), "statefulset-verif")
+}
+
 func cmdHandlers(args []string) {
 	fs := flag.NewFlagSet("handlers", flag.ExitOnError)
 	depth := fs.Int("depth", 4, "length of the queue/worker op sequences (all sequences are enumerated)")
@@ -289,6 +311,9 @@ func cmdHandlers(args []string) {
 	if *one != "" {
 		var ops []string
 		json.Unmarshal([]byte(*one), &ops)
+		if len(ops) > 8 { // the long runs of failures are executed on the queue with the fast rate limiter (see below)
+			e.ssc.VerifSetQueue(fastQueue())
+		}
 		sh.write(e.hSequence(ops))
 		sh.close()
 		return
@@ -322,8 +347,26 @@ func cmdHandlers(args []string) {
 	for _, s := range seqs {
 		sq.write(e.hSequence(s))
 	}
+	// long runs of failing reconciles (a failing set must come back every time, however often it failed): on a queue of the
+	// production type whose rate limiter is fast enough to get through them
+	fast := NewEnv()
+	fast.ssc.VerifSetQueue(fastQueue())
+	nlong := 0
+	for _, n := range []int{16, 24, 40} {
+		// (plain failures only: with an event during every failing reconcile the key is back at once and the limiter's
+		// timer fires at an unobserved moment later on)
+		for _, op := range []string{"Pfail"} {
+			long := []string{"E"}
+			for k := 0; k < n; k++ {
+				long = append(long, op)
+			}
+			long = append(long, "Pok")
+			sq.write(fast.hSequence(long))
+			nlong++
+		}
+	}
 	sq.close()
-	b, _ := json.Marshal(map[string]interface{}{"records": n + len(seqs), "events": n, "sequences": len(seqs), "exhaustive": true,
+	b, _ := json.Marshal(map[string]interface{}{"records": n + len(seqs) + nlong, "events": n, "sequences": len(seqs) + nlong, "exhaustive": true,
 		"domain": fmt.Sprintf("handler table (%d event shapes) + all op sequences up to length %d", n, *depth)})
 	os.WriteFile(*out+"/meta.json", b, 0o644)
 	fmt.Println(string(b))
